@@ -5,6 +5,7 @@ from .lifecycle import *
 from . import patches
 from ..interp import get_path
 
+PER_TARGET = True      # every rule below looks at one target configuration at a time (check.py may fork one worker per target)
 DECIDED = ("on the loop-summarised allocator of every target (one abstract iteration with all loop-carried locals havocked — sound for every "
            "iteration): R11.1 every normal return value is the mapping call's result, on the success edge of the failure-sentinel test and "
            "on the accept edge of a distance test |placed - function| <=/< R; R11.2 on the reject edge the mapping is released with "
